@@ -73,7 +73,11 @@ func execute(c Case) error {
 		paths := []string{filepath.Join(root, "abs-session.json"), filepath.Join("sub", "rel-session.json"), "bare-session.json"}
 		loaders := []session.SessionLoader{session.NewFromFile(paths[0]), session.NewFromFile(paths[1]), session.NewFromFile(paths[2])}
 		model := make([]*Sess, 3)
+		var kept hx.Retain
 		for i, op := range c.Ops {
+			if err := kept.Verify(); err != nil {
+				return fmt.Errorf("before step %d: %v", i, err)
+			}
 			p := paths[op.Path]
 			where := fmt.Sprintf("step %d (%s on %s path)", i, op.Kind, pathKinds[op.Path])
 			switch op.Kind {
@@ -117,6 +121,10 @@ func execute(c Case) error {
 				if err := same(got, model[op.Path]); err != nil {
 					return fmt.Errorf("%s: %v", where, err)
 				}
+				// a session that was handed out stays what it was, whatever is stored or loaded afterwards
+				kept.Keep("a session returned by Load", func() []byte {
+					return []byte(fmt.Sprintf("%x|%x|%d|%s", got.Key, got.Hash, got.Salt, got.Hostname))
+				})
 			case "remove":
 				if err := os.Remove(p); err != nil && !os.IsNotExist(err) {
 					return fmt.Errorf("INFRA: %v", err)
